@@ -23,6 +23,7 @@ import (
 	"strconv"
 	"strings"
 	"testing"
+	"time"
 
 	topov1alpha1 "github.com/k8stopologyawareschedwg/noderesourcetopology-api/pkg/apis/topology/v1alpha1"
 	corev1 "k8s.io/api/core/v1"
@@ -34,6 +35,7 @@ import (
 
 	apiext "github.com/koordinator-sh/koordinator/apis/extension"
 	slov1alpha1 "github.com/koordinator-sh/koordinator/apis/slo/v1alpha1"
+	"github.com/koordinator-sh/koordinator/pkg/features"
 	"github.com/koordinator-sh/koordinator/pkg/koordlet/metriccache"
 	"github.com/koordinator-sh/koordinator/pkg/koordlet/resourceexecutor"
 	"github.com/koordinator-sh/koordinator/pkg/koordlet/statesinformer"
@@ -738,10 +740,14 @@ type c10Informer struct {
 	statesinformer.StatesInformer // nil: any method not overridden below would panic, none is used by the code under test
 	pods                          []*statesinformer.PodMeta
 	topo                          *topov1alpha1.NodeResourceTopology
+	node                          *corev1.Node
+	slo                           *slov1alpha1.NodeSLO
 }
 
 func (f *c10Informer) GetAllPods() []*statesinformer.PodMeta             { return f.pods }
 func (f *c10Informer) GetNodeTopo() *topov1alpha1.NodeResourceTopology { return f.topo }
+func (f *c10Informer) GetNode() *corev1.Node                           { return f.node }
+func (f *c10Informer) GetNodeSLO() *slov1alpha1.NodeSLO                { return f.slo }
 
 type c10MetricCache struct {
 	metriccache.MetricCache
@@ -753,6 +759,57 @@ func (f *c10MetricCache) Get(key interface{}) (interface{}, bool) {
 		return f.info, true
 	}
 	return nil, false
+}
+
+// the time series side is served by c10ResultFactory (installed as metriccache.DefaultAggregateResultFactory): queries are no-ops
+func (f *c10MetricCache) Querier(_, _ time.Time) (metriccache.Querier, error) { return c10Querier{}, nil }
+
+type c10Querier struct{}
+
+func (c10Querier) Query(metriccache.MetricMeta, *metriccache.QueryHints, metriccache.MetricResult) error {
+	return nil
+}
+func (c10Querier) QueryAndClose(metriccache.MetricMeta, *metriccache.QueryHints, metriccache.MetricResult) error {
+	return nil
+}
+func (c10Querier) Close() {}
+
+type c10AggResult struct {
+	metriccache.AggregateResult
+	has bool
+	v   float64
+}
+
+func (r *c10AggResult) Count() int {
+	if r.has {
+		return 1
+	}
+	return 0
+}
+func (r *c10AggResult) Value(metriccache.AggregationType) (float64, error) {
+	if !r.has {
+		return 0, fmt.Errorf("no sample")
+	}
+	return r.v, nil
+}
+
+func c10MetaKey(m metriccache.MetricMeta) string {
+	props := m.GetProperties()
+	return m.GetKind() + "|" + fmt.Sprint(vk.SortedKeys(props)) + "|" + func() string {
+		var vs []string
+		for _, k := range vk.SortedKeys(props) {
+			vs = append(vs, props[k])
+		}
+		return strings.Join(vs, ",")
+	}()
+}
+
+// c10ResultFactory answers every metric query with the "latest" value the harness put in values.
+type c10ResultFactory struct{ values map[string]float64 }
+
+func (f *c10ResultFactory) New(meta metriccache.MetricMeta) metriccache.AggregateResult {
+	v, ok := f.values[c10MetaKey(meta)]
+	return &c10AggResult{has: ok, v: v}
 }
 
 // c10Exec passes everything to the real executor and remembers which files the plugin tried to update.
@@ -1628,5 +1685,338 @@ func TestVerifC10CfsQuota(t *testing.T) {
 			c.Violation(t, sig, "cfs quota is %d (%q), expected %d; %s", got, raw, expected, desc)
 			return
 		}
+	})
+}
+
+// ---------------------------------------------------------------- (5) suppressBECPU histories: policy switches on one plugin / one executor
+
+type c10Load struct {
+	Thr    int64  // cpuSuppressThresholdPercent
+	Min    *int64 // cpuSuppressMinPercent
+	KU, KS int    // usage of the LS pod / of the system, in 1/8 cores (exact in float64)
+}
+
+// budgetMilli restates the budget for the simple load this unit generates: whole-core capacity, no node reservation, one LS
+// pod using KU/8 cores, system using KS/8 cores, nothing else measured. Every term is an exact integer number of milli-cores.
+func (l c10Load) budgetMilli(n int) int64 {
+	b := int64(n)*10*l.Thr - 125*int64(l.KU) - 125*int64(l.KS)
+	if l.Min != nil && b < int64(n)*10**l.Min {
+		b = int64(n) * 10 * *l.Min
+	}
+	return b
+}
+
+func (l c10Load) String() string {
+	min := "nil"
+	if l.Min != nil {
+		min = fmt.Sprint(*l.Min)
+	}
+	return fmt.Sprintf("thr=%d%% min=%s lsPodUsage=%d/8 systemUsage=%d/8", l.Thr, min, l.KU, l.KS)
+}
+
+func c10GenLoad(t *rapid.T, n int) c10Load {
+	l := c10Load{}
+	l.Thr = int64(rapid.OneOf(rapid.IntRange(40, 100), rapid.IntRange(0, 100)).Draw(t, "threshold"))
+	if rapid.IntRange(0, 2).Draw(t, "hasMin") == 0 {
+		m := int64(rapid.IntRange(0, 30).Draw(t, "minPercent"))
+		l.Min = &m
+	}
+	l.KU = rapid.IntRange(0, 6*n).Draw(t, "lsUsageEighths")
+	l.KS = rapid.IntRange(0, 2*n).Draw(t, "systemUsageEighths")
+	return l
+}
+
+func c10ParseQuota(raw string) (int64, error) {
+	f := strings.Fields(raw)
+	if len(f) == 0 {
+		return 0, fmt.Errorf("empty")
+	}
+	if f[0] == "max" {
+		return -1, nil
+	}
+	return strconv.ParseInt(f[0], 10, 64)
+}
+
+func TestVerifC10SuppressHistory(t *testing.T) {
+	c10Quiet()
+	rec := vk.New(t, "C10", "suppressHistory")
+	rec.Note("rounds", "2-5 calls of suppressBECPU on one plugin instance with one started executor cache; the harness never sleeps, so all rounds fall inside the executor's force-update window")
+	helper := system.NewFileTestUtil(t)
+	defer helper.Cleanup()
+	base := helper.TempDir
+	defer func() { system.Conf.CgroupRootDir = base }()
+	factory := &c10ResultFactory{}
+	oldFactory := metriccache.DefaultAggregateResultFactory
+	metriccache.DefaultAggregateResultFactory = factory
+	defer func() { metriccache.DefaultAggregateResultFactory = oldFactory }()
+	gateSuppress := features.DefaultKoordletFeatureGate.Enabled(features.BECPUSuppress)
+	gateManager := features.DefaultKoordletFeatureGate.Enabled(features.BECPUManager)
+	setGates := func(suppress, manager bool) {
+		if err := features.DefaultMutableKoordletFeatureGate.SetFromMap(map[string]bool{string(features.BECPUSuppress): suppress, string(features.BECPUManager): manager}); err != nil {
+			t.Fatalf("harness: cannot set feature gates: %v", err)
+		}
+	}
+	defer setGates(gateSuppress, gateManager)
+	nodeMeta, err := metriccache.NodeCPUUsageMetric.BuildQueryMeta(nil)
+	if err != nil {
+		t.Fatalf("harness: %v", err)
+	}
+	const loadUID = "uid-load"
+	podMeta, err := metriccache.PodCPUUsageMetric.BuildQueryMeta(metriccache.MetricPropertiesFunc.Pod(loadUID))
+	if err != nil {
+		t.Fatalf("harness: %v", err)
+	}
+	caseNo := 0
+	beRoot := koordletutil.GetPodQoSRelativePath(corev1.PodQOSBestEffort)
+	rapid.Check(t, func(t *rapid.T) {
+		c := rec.Begin()
+		defer c.End()
+		caseNo++
+		root := filepath.Join(base, fmt.Sprintf("case%d", caseNo))
+		system.Conf.CgroupRootDir = root
+		defer os.RemoveAll(root)
+		defer setGates(true, false)
+		setGates(true, false)
+
+		s := c10GenScenario(t)
+		s.NoTopo = false // suppressBECPU cannot even recover without the topology object; unit (3) covers that input
+		helper.SetCgroupsV2(s.V2)
+		exec := c10NewExec()
+		env := c10NewSetEnv(s, beRoot, exec)
+		n := len(env.ids)
+		e := len(env.eligible)
+		if err := env.prepare(); err != nil {
+			t.Fatalf("harness: cannot prepare cgroup dir: %v", err)
+		}
+		// quota the BE cgroup holds before the first round
+		minDelta := int64(n) * c10CFSPeriod / 100
+		step := int64(n) * c10CFSPeriod / 10
+		initQuota := int64(-1)
+		if rapid.Bool().Draw(t, "quotaSetBefore") {
+			initQuota = int64(rapid.IntRange(1000, n*c10CFSPeriod).Draw(t, "initQuota"))
+		}
+		writeQuota := func(q int64) {
+			str := strconv.FormatInt(q, 10)
+			if s.V2 {
+				if q == -1 {
+					str = "max"
+				}
+				str += " " + strconv.Itoa(c10CFSPeriod)
+			}
+			if err := c10WriteFile(env.fs.quotaFile(beRoot), str); err != nil {
+				t.Fatalf("harness: %v", err)
+			}
+		}
+		readQuota := func() (int64, string) {
+			raw, err := c10ReadTrim(env.fs.quotaFile(beRoot))
+			if err != nil {
+				t.Fatalf("harness: %v", err)
+			}
+			q, err := c10ParseQuota(raw)
+			if err != nil {
+				t.Fatalf("harness: quota file holds %q: %v", raw, err)
+			}
+			return q, raw
+		}
+		writeQuota(initQuota)
+
+		inf := s.buildInformer()
+		load := &corev1.Pod{ObjectMeta: metav1.ObjectMeta{Name: "load", Namespace: "default", UID: loadUID, Labels: map[string]string{apiext.LabelPodQoS: "LS"}}}
+		load.Status.QOSClass = corev1.PodQOSBurstable
+		inf.pods = append(inf.pods, &statesinformer.PodMeta{Pod: load, CgroupDir: "kubepods/load"})
+		capQ := *resource.NewQuantity(int64(n), resource.DecimalSI)
+		inf.node = &corev1.Node{ObjectMeta: metav1.ObjectMeta{Name: "n"}, Status: corev1.NodeStatus{
+			Capacity: corev1.ResourceList{corev1.ResourceCPU: capQ}, Allocatable: corev1.ResourceList{corev1.ResourceCPU: capQ}}}
+		info := &metriccache.NodeCPUInfo{ProcessorInfos: append([]koordletutil.ProcessorInfo(nil), s.Topo.Procs...)}
+		r := &CPUSuppress{
+			interval:               time.Second,
+			metricCollectInterval:  time.Second,
+			statesInformer:         inf,
+			metricCache:            &c10MetricCache{info: info},
+			executor:               exec,
+			cgroupReader:           resourceexecutor.NewCgroupReader(),
+			suppressPolicyStatuses: map[string]suppressPolicyStatus{},
+		}
+		stop := make(chan struct{})
+		defer close(stop)
+		r.init(stop)
+
+		c.Class("kubelet-policy:" + s.Policy)
+		c.ClassIf(s.V2, "cgroup-v2")
+		c.ClassIf(e == 0, "no-eligible-cpu")
+		c.ClassIf(initQuota == -1, "quota-unset-before")
+
+		nRounds := rapid.IntRange(2, 5).Draw(t, "rounds")
+		var hist []string
+		var policies []string
+		var prevLoad c10Load
+		lastQuotaWritten := int64(-2) // value the last quota-mode round left in the file
+		nonQuotaSinceQuota := false
+		switchBack := false
+		for round := 0; round < nRounds; round++ {
+			policy := rapid.SampledFrom([]string{"cfsQuota", "cfsQuota", "cfsQuota", "cpuset", "cpuset", "disabled", "disabled", "be-cpu-manager"}).Draw(t, "policy")
+			l := prevLoad
+			if round == 0 || rapid.IntRange(0, 2).Draw(t, "sameLoadAsPreviousRound") == 0 {
+				l = c10GenLoad(t, n)
+			} else {
+				c.Class("same-budget-as-previous-round")
+			}
+			prevLoad = l
+			milli := l.budgetMilli(n)
+			// what the agent sees this round
+			enable := policy != "disabled"
+			thr := l.Thr
+			strategy := &slov1alpha1.ResourceThresholdStrategy{Enable: &enable, CPUSuppressThresholdPercent: &thr, CPUSuppressMinPercent: l.Min}
+			switch policy {
+			case "cfsQuota":
+				strategy.CPUSuppressPolicy = slov1alpha1.CPUCfsQuotaPolicy
+			case "cpuset":
+				if rapid.Bool().Draw(t, "policyFieldEmpty") {
+					strategy.CPUSuppressPolicy = ""
+				} else {
+					strategy.CPUSuppressPolicy = slov1alpha1.CPUSetPolicy
+				}
+			default: // the policy field is whatever the operator left there
+				strategy.CPUSuppressPolicy = rapid.SampledFrom([]slov1alpha1.CPUSuppressPolicy{slov1alpha1.CPUCfsQuotaPolicy, slov1alpha1.CPUSetPolicy}).Draw(t, "idlePolicyField")
+			}
+			inf.slo = &slov1alpha1.NodeSLO{Spec: slov1alpha1.NodeSLOSpec{ResourceUsedThresholdWithBE: strategy}}
+			setGates(true, policy == "be-cpu-manager")
+			factory.values = map[string]float64{
+				c10MetaKey(nodeMeta): float64(l.KU+l.KS) / 8,
+				c10MetaKey(podMeta):  float64(l.KU) / 8,
+			}
+
+			curQuota, curRaw := readQuota()
+			oldStr, oldN := env.readOld(t)
+			want, unlimited, stepCPUs := c10Target(milli, oldN, n)
+			where := fmt.Sprintf("round %d: policy=%s %s budget=%dm quotaBefore=%q beCPUSetBefore=%q(%d cpus) processors=%d eligible=%d(%s)",
+				round, policy, l, milli, curRaw, oldStr, oldN, n, e, c10FmtSet(env.eligible))
+
+			// classes of the history shape
+			for _, p := range policies {
+				if p == policy && policies[len(policies)-1] != policy {
+					switchBack = true
+					c.Class("switch-back-to:" + policy)
+				}
+			}
+			if len(policies) > 0 {
+				c.Class("transition:" + policies[len(policies)-1] + "->" + policy)
+			}
+			policies = append(policies, policy)
+
+			exec.attempts = map[string]int{}
+			var pnc any
+			func() {
+				defer func() { pnc = recover() }()
+				r.suppressBECPU()
+			}()
+			if pnc != nil {
+				hist = append(hist, where+" -> PANIC")
+				c.Violation(t, "history:panic", "suppressBECPU panicked: %v; %s; scenario: %s; history=%v", pnc, where, s, hist)
+				return
+			}
+			gotQuota, gotRaw := readQuota()
+
+			if policy == "cfsQuota" {
+				target := milli * c10CFSPeriod / 1000
+				if target < c10MinQuota {
+					target = c10MinQuota
+				}
+				delta := target - curQuota
+				abs := delta
+				if abs < 0 {
+					abs = -abs
+				}
+				expected := target
+				switch {
+				case curQuota != -1 && abs < minDelta && target != c10MinQuota:
+					expected = curQuota // documented bypass of changes below 1% of the node
+					c.Class("quota-small-delta-bypass")
+				case curQuota != -1 && delta > step:
+					expected = curQuota + step // documented step limit
+					c.Class("quota-step-limited")
+				}
+				c.ClassIf(target == c10MinQuota, "quota-floored-by-min")
+				if nonQuotaSinceQuota && expected == lastQuotaWritten {
+					c.Class("policy-switch-back-same-quota")
+				}
+				if gotQuota != expected {
+					hist = append(hist, fmt.Sprintf("%s -> quota %q", where, gotRaw))
+					sig := "history:quota-wrong-value"
+					if gotQuota == -1 {
+						sig = "history:quota-left-unset-in-quota-mode"
+					}
+					if c.Violation(t, sig, "cfs quota is %q after a quota-mode round, expected %d (target %d, 1%%-of-node=%d, 10%%-of-node=%d); %s; scenario: %s; history=%v",
+						gotRaw, expected, target, minDelta, step, where, s, hist) {
+						return
+					}
+					return
+				}
+				lastQuotaWritten = gotQuota
+				nonQuotaSinceQuota = false
+			} else {
+				nonQuotaSinceQuota = true
+				// not in quota mode: the BE quota must be back to unlimited
+				if gotQuota != -1 {
+					hist = append(hist, fmt.Sprintf("%s -> quota %q", where, gotRaw))
+					if c.Violation(t, "history:quota-not-recovered", "cfs quota is %q after a round with policy %s, expected unlimited; %s; scenario: %s; history=%v", gotRaw, policy, where, s, hist) {
+						return
+					}
+					return
+				}
+			}
+
+			var result string
+			if policy == "cpuset" {
+				c.ClassIf(want < e, "cpuset-target-below-eligible")
+				c.ClassIf(want < unlimited, "cpuset-step-limited")
+				res, abandon := env.observeSuppressed(t, c, where, hist, want, unlimited, stepCPUs, oldN)
+				if abandon {
+					return
+				}
+				result = "cpuset " + res
+			} else {
+				// not in cpuset mode: every BE cgroup is reset to all CPUs that are not protected
+				wantSet := c10SetOf(env.eligible)
+				for _, d := range env.allDirs {
+					list, raw, _ := env.read(t, c, d, where)
+					if env.exclusion(t, c, d, list, where, hist) {
+						return
+					}
+					got := c10SetOf(list)
+					same := len(got) == len(wantSet)
+					for id := range wantSet {
+						if !got[id] {
+							same = false
+						}
+					}
+					if !same {
+						hist = append(hist, fmt.Sprintf("%s -> %s cpuset %q", where, d, raw))
+						if c.Violation(t, "history:cpuset-not-recovered", "%s holds cpuset %q after a round with policy %s, expected every unprotected CPU %q; %s; scenario: %s; history=%v",
+							d, raw, policy, c10FmtSet(env.eligible), where, s, hist) {
+							return
+						}
+						return
+					}
+				}
+				result = fmt.Sprintf("cpuset recovered to %q", c10FmtSet(env.eligible))
+			}
+			hist = append(hist, fmt.Sprintf("%s -> quota %q, %s", where, gotRaw, result))
+			// what the kernel would do on cgroup v2: refresh cpuset.cpus.effective, keep the period field of cpu.max
+			env.refreshEffective()
+			if s.V2 {
+				writeQuota(gotQuota)
+			}
+		}
+		kinds := map[string]bool{}
+		for _, p := range policies {
+			kinds[p] = true
+		}
+		c.ClassIf(len(kinds) >= 3, "three-or-more-policies-in-one-history")
+		c.ClassIf(len(kinds) == 1, "single-policy-history")
+		if switchBack {
+			c.NonTrivial(s.String(), hist)
+		}
+		c.Sample(map[string]any{"scenario": s.String(), "rounds": hist})
 	})
 }
